@@ -128,10 +128,13 @@ func (em *emitter) emitNodes(nodes []ast.Node) {
 				em.fb.setLabelAddr(endForLabel)
 			} else {
 				forLabel := em.fb.newLabel()
+				forPost := em.fb.newLabel()
 				em.fb.setLabelAddr(forLabel)
 				endForLabel := em.fb.newLabel()
-				em.rangeLabels = append(em.rangeLabels, forLabel)
+				em.rangeLabels = append(em.rangeLabels, forPost)
 				em.emitNodes(node.Body)
+				em.rangeLabels = em.rangeLabels[:len(em.rangeLabels)-1]
+				em.fb.setLabelAddr(forPost)
 				if node.Post != nil {
 					em.emitNodes([]ast.Node{node.Post})
 				}
